@@ -200,16 +200,28 @@ def kernels():
         "  m3list (euler_rad ROps [ndiv ROps (nmul ROps a0 (%s)) (nofZ ROps 180); ndiv ROps (nmul ROps a1 (%s)) (nofZ ROps 180)] [AZ; AX]).\n"
         "Proof. intros. unfold {T}. unfold nfrac. %s. list_eq_ring. Qed." % (K, K, UNF), imports=_imports()))
 
-    # rotation_from_up_and_look: Gram-Schmidt with two nested square roots; equality by unfolding
+    # rotation_from_up_and_look: Gram-Schmidt with two nested square roots; equality by unfolding.
+    # Since the repair of the extreme-magnitude defect (fixes/C11-up-look-extreme-magnitudes.diff) the code first
+    # rescales each vector by a power of two (np.frexp / np.ldexp); the trace then computes on u * 2^-e, and the tie goes
+    # through the scale invariance lemma of P_rotation.v.  Both shapes of the source are accepted; anything else breaks.
+    import inspect
+    rescaled = "ldexp" in inspect.getsource(rotation_from_up_and_look)
+    UL_HEAD = ("Lemma {T}_ok : forall {vars} : R, {T}_path ROps {vars} ->\n"
+               "  rmap (m3list (F:=R)) (rotation_from_up_and_look ROps (V3 u0 u1 u2) (V3 l0 l1 l2)) = Ok ({T} ROps {vars}).\n"
+               "Proof. intros {vars} Hpath. unfold {T}_path, nfrac in Hpath; rops. path_facts Hpath.\n")
+    UL_BODY = ("  unfold rotation_from_up_and_look. cbv [vnorm vnorm2 vdot vdivs vsub vscale vcross m3rows n0 vx vy vz]; rops.\n"
+               "  repeat match goal with |- context [Reqb ?a ?b] => destruct (Reqb_spec a b) as [?E|?E]; [exfalso; first [contradiction | lra]|] end.\n"
+               "  cbn [rmap]; f_equal; unfold {T}, nfrac; %s; list_eq ltac:(first [reflexivity | ring]). Qed." % UNF)
+    # scenario: largest components 3 = 0.75 * 2^2 for both vectors, so both are rescaled by 2^-2
+    UL_SCALE = ("  rewrite <- (up_look_scale_invariant (1 / 4) (1 / 4) (V3 u0 u1 u2) (V3 l0 l1 l2)) by lra.\n"
+                "  replace (vscale ROps (1 / 4) (V3 u0 u1 u2)) with (V3 (u0 * (1 / 4)) (u1 * (1 / 4)) (u2 * (1 / 4)))\n"
+                "    by (unfold vscale; cbn [vx vy vz]; rops; apply V3_ext; ring).\n"
+                "  replace (vscale ROps (1 / 4) (V3 l0 l1 l2)) with (V3 (l0 * (1 / 4)) (l1 * (1 / 4)) (l2 * (1 / 4)))\n"
+                "    by (unfold vscale; cbn [vx vy vz]; rops; apply V3_ext; ring).\n")
     ks.append(Kernel(
-        "up_look", {"u": [0.5, 2.0, 1.0], "l": [2.0, -1.0, 0.5]}, lambda u, l: rotation_from_up_and_look(u, l),
-        "Lemma {T}_ok : forall {vars} : R, {T}_path ROps {vars} ->\n"
-        "  rmap (m3list (F:=R)) (rotation_from_up_and_look ROps (V3 u0 u1 u2) (V3 l0 l1 l2)) = Ok ({T} ROps {vars}).\n"
-        "Proof. intros {vars} Hpath. unfold {T}_path in Hpath; rops. path_facts Hpath.\n"
-        "  unfold rotation_from_up_and_look. cbv [vnorm vnorm2 vdot vdivs vsub vscale vcross m3rows n0 vx vy vz]; rops.\n"
-        "  repeat match goal with |- context [Reqb ?a ?b] => destruct (Reqb_spec a b) as [?E|?E]; [exfalso; first [contradiction | lra]|] end.\n"
-        "  cbn [rmap]; f_equal; unfold {T}; %s; list_eq ltac:(first [reflexivity | ring]). Qed." % UNF,
-        imports=_imports(), perturb=1e-3))
+        "up_look", {"u": [0.5, 3.0, 1.0], "l": [3.0, -1.0, 0.5]}, lambda u, l: rotation_from_up_and_look(u, l),
+        UL_HEAD + (UL_SCALE if rescaled else "") + UL_BODY,
+        imports=_imports() + [("PW.proofs", "P_vec"), ("PW.proofs", "P_rotation")], perturb=1e-3))
     return ks
 
 
@@ -245,7 +257,7 @@ def _near_collinear(rng, tier):
         perp = np.cross(up, grid_vec(rng))
         if np.linalg.norm(up) > 0 and np.linalg.norm(perp) > 0:
             break
-    ang = 10.0 ** rng.uniform(-5.7, -2.0)
+    ang = 10.0 ** rng.uniform(-6.0, -2.0)
     c = rng.choice([1.0, 2.5, -1.0, -0.75])  # also the anti-parallel side
     look = [c * u + abs(c) * ang * np.linalg.norm(up) / np.linalg.norm(perp) * q_ for u, q_ in zip(up, perp)]
     s1, s2 = _scale(rng, tier), _scale(rng, tier)
@@ -277,6 +289,22 @@ def gen_cases(rng, n, tier):
                       "angles": [rng.uniform(-720, 720) if deg else rng.uniform(-7, 7) for _ in range(3)]})
     for _ in range(24 if tier == "quick" else 300):  # rational rotation matrices (integer quaternions), rounded to binary64
         cases.append({"kind": "rotation_matrix", "orth": True, "r": _quat_rotation(rng)})
+    for i in range(6):  # a bare scalar angle (not a list) with one axis, both units
+        deg = i % 2 == 0
+        cases.append({"kind": "euler_scalar", "deg": deg, "order": "xyz"[i % 3] + ("" if i < 3 else "z"), "scalar": True,
+                      "angles": [rng.uniform(-720, 720) if deg else rng.uniform(-7, 7)]})
+    # "at any magnitude": each vector independently at the far ends of the binary64 range (squared norms would
+    # overflow above 2^512 and underflow below 2^-512), down to subnormal components
+    for _ in range(16 if tier == "quick" else 200):
+        while True:
+            up, look = grid_vec(rng), grid_vec(rng)
+            cr = np.cross(up, look)
+            if np.linalg.norm(cr) > 1e-2 * np.linalg.norm(up) * np.linalg.norm(look) > 0:
+                break
+        ku, kl = [rng.choice([1, -1]) * rng.randint(520, 1070) if rng.random() < 0.75 else rng.randint(-10, 10) for _ in range(2)]
+        ku, kl = min(ku, 1020), min(kl, 1020)
+        cases.append({"kind": "up_look_extreme", "up": [math.ldexp(x, ku) for x in up],
+                      "look": [math.ldexp(x, kl) for x in look], "exp": [ku, kl]})
     for _ in range(12 if tier == "quick" else 200):
         up, look = _near_collinear(rng, tier)
         cases.append({"kind": "up_look_near_collinear", "up": up, "look": look})
@@ -451,8 +479,12 @@ def run_impl(c):
             seq = p
             for m in ms:
                 seq = apply_transform(m)(seq)
+            seqv = p
+            for m in ms:
+                seqv = apply_transform(m)(seqv, treat_input_as_vector=True)
             return {"m": r.reshape(-1).tolist(), "shape": list(r.shape), "applied": apply_transform(r)(p).tolist(),
-                    "sequential": seq.tolist()}
+                    "sequential": seq.tolist(), "applied_vec": apply_transform(r)(p, treat_input_as_vector=True).tolist(),
+                    "sequential_vec": seqv.tolist()}
         raise ValueError("unknown kind " + kind)
 
     return call_impl(go)
@@ -482,6 +514,12 @@ def coq_case(c, o):
         return "CEuler %s %s %s %s" % (coq_bool(c["deg"]), coq_list(q(a) for a in c["angles"]), order, flv(o["m"]))
     if kind == "up_look_near_collinear":
         return "CUpLookTol %s %s %s %s" % (q(_up_look_tol(c)), qv(c["up"]), qv(c["look"]), _res(o, lambda o: flv(o["m"])))
+    if kind == "up_look_extreme":
+        # the Q model is run on up * 2^-ku, look * 2^-kl (exact): same result by C11_up_look_scale_invariant, and the
+        # evaluation does not have to carry 1000-bit numbers through the square roots
+        ku, kl = c["exp"]
+        return "CUpLook %s %s %s" % (qv([Fr(x) / Fr(2) ** ku for x in c["up"]]), qv([Fr(x) / Fr(2) ** kl for x in c["look"]]),
+                                     _res(o, lambda o: flv(o["m"])))
     if kind.startswith("up_look"):
         return "CUpLook %s %s %s" % (qv(c["up"]), qv(c["look"]), _res(o, lambda o: flv(o["m"])))
     if kind in ("rotation_matrix", "rotation_any_matrix"):
@@ -624,7 +662,7 @@ def oracle(c, o):
         return None if (raised and o["raise"] == "ValueError") else "zero-length up/look not rejected with ValueError"
     if kind == "up_look_collinear":
         return None  # outside the property's domain (directions differ by less than 1e-6 rad)
-    if kind in ("up_look", "up_look_near_collinear"):
+    if kind in ("up_look", "up_look_near_collinear", "up_look_extreme"):
         TOLU = _up_look_tol(c)
         if raised:
             return "rotation_from_up_and_look raised %s on a valid pair" % o["raise"]
@@ -736,6 +774,9 @@ def oracle(c, o):
         # the property text, for ALL 4x4 matrices (no affinity filter): see classify() / known_findings/C11.json
         if _F(o["applied"]) != _F(o["sequential"]):
             return "applying compose(A, B, ...) differs from applying A, then B, ...: %r vs %r" % (o["applied"], o["sequential"])
+        if _F(o["applied_vec"]) != _F(o["sequential_vec"]):
+            return "applying compose(A, B, ...) differs from applying A, then B, ... (as vectors): %r vs %r" % (
+                o["applied_vec"], o["sequential_vec"])
         return None
     return None
 
